@@ -15,7 +15,7 @@
                                        string), host (same, any-host when the rule has none), header conditions
                                        (ValueCondition::match_value: unanchored Regex::new(marker.regex))
      src/action/mod.rs                 Action::get_target, Action::from_route_rule: where variables are substituted
-     std                               str::replace, str::contains, slice::sort_by (stable), usize::from_str,
+     std                               str::replace (transformer Replace, and the pinned StaticOrDynamic::replace), str::contains, slice::sort_by (stable), usize::from_str,
                                        str::is_char_boundary, HashMap (as association list sorted by key)
      regex-syntax 0.8.11               escape / is_meta_character (RIO.Prefix.is_meta), group-name syntax
    The regex engine is a PARAMETER of every function that needs it ([engine]); C10Run instantiates it with RIO.Rx.
@@ -90,9 +90,43 @@ Definition name_len (nv : str * str) : nat := length (fst nv).
 (* Marker::format / format!("@{name}") *)
 Definition at_name (name : str) : str := c_at :: name.
 
-(* StaticOrDynamic::replace: one str::replace per variable, in list order *)
+(* StaticOrDynamic::replace AS PINNED (before the repair df98c41): one str::replace per variable, in list order.
+   No longer the crate's code; kept because the theorems about it (C10_substitute, C10_longest_first,
+   C10_order_irrelevant and the witnesses) say exactly where the repair changes the result: nowhere under
+   [subst_safe], and on the witnesses' classes. *)
 Definition sod_replace (s : str) (variables : list (str * str)) : str :=
   fold_left (fun acc nv => str_replace (at_name (fst nv)) (snd nv) acc) variables s.
+
+(* StaticOrDynamic::replace (df98c41): ONE left-to-right pass.
+   the loop `for variable in variables`: a variable whose name follows replaces the current choice only when its
+   name is STRICTLY longer (so the first one wins among equal names; an empty name follows every '@' and is kept
+   only when nothing longer follows) *)
+Definition pick_step (after : str) (longest : option (str * str)) (variable : str * str) : option (str * str) :=
+  if prefixb (fst variable) after
+     && match longest with None => true | Some current => Nat.ltb (length (fst current)) (length (fst variable)) end
+  then Some variable else longest.
+Definition pick_longest (variables : list (str * str)) (after : str) : option (str * str) :=
+  fold_left (pick_step after) variables None.
+
+(* `while let Some(position) = rest.find('@')`: the text before the '@' is copied; then the value of the picked
+   variable is pushed and the scan resumes after its name, or the '@' is copied and the scan resumes after it; the
+   pushed value is never scanned.  [skip] = bytes of the name still to be dropped. *)
+Fixpoint onepass (variables : list (str * str)) (s : str) (skip : nat) : str :=
+  match s with
+  | [] => []
+  | c :: s' =>
+      match skip with
+      | S k => onepass variables s' k
+      | O =>
+          if N.eqb c c_at then
+            match pick_longest variables s' with
+            | Some nv => snd nv ++ onepass variables s' (length (fst nv))
+            | None => c :: onepass variables s' 0
+            end
+          else c :: onepass variables s' 0
+      end
+  end.
+Definition sod_replace_onepass (s : str) (variables : list (str * str)) : str := onepass variables s 0.
 
 (* ---- the REFERENCE the property speaks of: simultaneous substitution.  Scanning left to right, at each '@'
    the first variable of the list whose name follows is replaced by its value and scanning resumes after the
@@ -624,7 +658,7 @@ Definition with_skipped (value : str) (q : request10) : str :=
 
 (* Action::get_target *)
 Definition action_get_target (r : rule10) (variables : list (str * str)) (q : request10) : option str :=
-  option_map (fun t => with_skipped (sod_replace t variables) q) (r_target r).
+  option_map (fun t => with_skipped (sod_replace_onepass t variables) q) (r_target r).
 
 (* Action::from_route_rule: the Location value (None when there is no target or it is empty), the header
    filter values, the body filter values *)
@@ -637,16 +671,16 @@ Record action_values := {
 Definition action_from_route_rule (r : rule10) (variables : list (str * str)) (q : request10) : action_values :=
   {| av_location :=
        match r_target r with
-       | Some target => if is_nil target then None else Some (with_skipped (sod_replace target variables) q)
+       | Some target => if is_nil target then None else Some (with_skipped (sod_replace_onepass target variables) q)
        | None => None
        end;
-     av_header_values := map (fun v => sod_replace v variables) (r_header_filters r);
+     av_header_values := map (fun v => sod_replace_onepass v variables) (r_header_filters r);
      av_body_values :=
        map (fun f => match f with
-                     | BFText content => BFText (sod_replace content variables)
+                     | BFText content => BFText (sod_replace_onepass content variables)
                      | BFHtml value inner =>
-                         BFHtml (sod_replace value variables)
-                                (Some (sod_replace (match inner with Some i => i | None => value end) variables))
+                         BFHtml (sod_replace_onepass value variables)
+                                (Some (sod_replace_onepass (match inner with Some i => i | None => value end) variables))
                      end) (r_body_filters r) |}.
 
 (* ---- what a router holding only this route answers *)
